@@ -229,6 +229,9 @@ func (e *Engine) VerifyFunc(key string) (res *FuncResult) {
 	e.cur = rc
 	e.setRgn(0)
 	rc.deadline = time.Now().Add(90 * time.Second)
+	if spec != nil && spec.MaxPaths > e.MaxPaths {
+		rc.deadline = time.Now().Add(time.Duration(90*spec.MaxPaths/e.MaxPaths) * time.Second)
+	}
 	defer func() {
 		res.Obligs = rc.obligs
 		res.Paths = rc.paths + 1
